@@ -528,12 +528,16 @@ class XtcePacketDefinition(common.AttrComparable):
                            for i in range(len(sequence_counts) - 1)):
                     warnings.warn(f"Continuation packets for apid {raw_packet_data.apid} "
                                   f"are not in sequence {sequence_counts}, skipping these packets.")
+                    # This group is finished (rejected); its segments must not leak into a later group
+                    del _segmented_packets[raw_packet_data.apid]
                     continue
                 # Add all content (including header) from the first packet
                 raw_data = _segmented_packets[raw_packet_data.apid][0]
                 # Add the continuation packets to the first packet, skipping the headers
                 for p in _segmented_packets[raw_packet_data.apid][1:]:
                     raw_data += p[raw_packet_data.HEADER_LENGTH_BYTES + secondary_header_bytes:]
+                # This group is complete; its segments must not contribute to any later output
+                del _segmented_packets[raw_packet_data.apid]
                 packet = packets.CCSDSPacket(raw_data=raw_data)
 
             # Now do the actual parsing of the packet data
